@@ -35,7 +35,6 @@ TRUSTED = ["tools/props/C01.py and tools/lib/c01_util.py: request generator, stu
            "Model/EndpointTailCorr.v check function", "tools/props/C09.py domain generators and printers (imported)"]
 HEADER = ("From Coq Require Import List QArith ZArith Bool.\nFrom LV Require Import Model.Domain Model.Decode Model.EndpointTail "
           "Model.EndpointTailCorr.\nOpen Scope Q_scope.")
-KNOWN_SIG = "C01:spe-search:no-violators-assertion-error"
 SHORT_SIG = "C01:gp-search:int-constrained-short-batch-assertion-error"
 SHORT_MARKS = ("len(categorical_next_points) == num_to_sample", "len(points.shape) == 2", "Variance vector V")
 
@@ -321,8 +320,9 @@ def pool_map(fn, reqs, workers=8):
     return res
 
 
-def known_finding_request():
-  """Deterministic instance of the registered finding: SPE-search, resolve phase, no observation violates a threshold."""
+def no_violators_request():
+  """SPE-search, explore / resolve phase, no observation violates a threshold (corpus/C01/spe_search_no_violators.json: the defect repaired by
+  'fix: SPE search forces the threshold split only when some observation violates a threshold' - the view used to raise AssertionError)."""
   return dict(endpoint="spe_search", comps=[dict(var_type="categorical", elements=[1, 3, 5]), dict(var_type="double", elements=[0.0, 4.0]),
                                            dict(var_type="int", elements=[0, 8])], cons=[], priors=None, n_obs=14, nopt=0, ncon=2,
               ntask=0, npend=0, num_to_sample=1, budget=14, failp=0.0, noise=0.0, parallelism="constant_liar", dup_heavy=False,
@@ -346,11 +346,7 @@ def classify(req, out):
     if out["error"] == "SPEInsufficientDataError":
       return None  # the library's own refusal (too few observations for the estimator): outside the valid requests
     int_con = any(k["var_type"] == "int" for k in req["cons"])
-    dg = out.get("diag") or {}
-    no_violators = dg.get("violators") == 0 and dg.get("observations", 0) > dg.get("one_hot_dim", 10 ** 9)
-    if ep == "spe_search" and out["error"] == "AssertionError" and no_violators and "isfinite" in out.get("where", ""):
-      sig = KNOWN_SIG
-    elif ep in ("gp", "search") and int_con and any(m in out.get("where", "") + out.get("message", "") for m in SHORT_MARKS):
+    if ep in ("gp", "search") and int_con and any(m in out.get("where", "") + out.get("message", "") for m in SHORT_MARKS):
       sig = SHORT_SIG
     else:
       sig = f"C01:{ep}:raises:{out['error']}"
@@ -388,6 +384,8 @@ def real_requests(rng, n):
       kw = dict(n_obs=rng.randint(8, 12), max_dim=3, num_to_sample=rng.choice([1, 2]))
     if ep in ("spe", "spe_search"):
       kw = dict(n_obs=rng.randint(16, 30))
+    if ep == "spe_search" and i % 20 == 8:
+      kw["violators"] = False                # no observation violates a threshold
     if i % 7 == 3:
       kw["constraints"] = "yes"
     reqs.append(U.gen_request(rng, ep, **kw))
@@ -446,7 +444,7 @@ def correspondence(ctx):
       if "error" in out:
         f = classify(req, out)
         dis.append(dict(what=f"C01 {layer} endpoint {req['endpoint']} raised {out['error']}: {out.get('message', '')}", kind="endpoint",
-                        input=req, observed=out, known=bool(f and f["signature"] in (KNOWN_SIG, SHORT_SIG))))
+                        input=req, observed=out, known=bool(f and f["signature"] == SHORT_SIG)))
         continue
       nocost = req["endpoint"] in ("search", "spe_search")
       add(resp_case(dict(req), out, nocost), dict(kind=key, input=req, out=out), len(out["points"]) > 0)
@@ -529,6 +527,8 @@ def cheap_requests(rng, n):
     kw["npend"] = [0, 0, 1, 3, 25, 60][(i // 48) % 6 if i >= 48 else rng.randrange(6)]
     if ep != "spe_search":
       kw["ntask"] = rng.choice([0, 0, 2, 3])
+    elif (i // 3) % 4 == 1:
+      kw["violators"] = False              # thresholds that no observation violates (the search estimator then keeps the constructor's split)
     kw["discrete_only"] = rng.random() < 0.15
     if i % 16 == 5:
       kw["constraints"] = "both"           # double- AND int-typed constraints (their order in the list is shuffled)
@@ -577,7 +577,7 @@ def cheap_requests(rng, n):
 
 def search(ctx, hints, broken):
   fails, n = [], 0
-  reqs = [known_finding_request(), short_batch_request()]
+  reqs = [no_violators_request(), short_batch_request()]
   for h in hints:
     inp = h.get("input")
     if isinstance(inp, dict) and "endpoint" in inp and "seed" in inp:
@@ -632,7 +632,8 @@ LEVEL_TEXT = ("Coq theorems on an executable model of the tail of each of the fi
 LEVEL_NOTE = ("relaxed_ok of the optimiser / sampler output is discharged by composition with C07 / C08 (Props/C01_composed.v; constraints with >= 2 non-zero weights, an interior point on constrained domains); the "
               "hit-and-run sampler branches and the whole-endpoint glue functions are tied to the code through their parts, constrained optimiser runs through the specification with 1e-9; range contracts of the random libraries are hypotheses; float "
               "rounding at constraint faces is not modelled; the distribution of the softmax draw is not modelled beyond its parameters; "
-              "two known findings (SPE-search without threshold violators raises AssertionError; int-constrained short batch)")
+              "one known finding (int-constrained short batch); the SPE-search endpoint without threshold violators, a known finding of the earlier rounds, is repaired "
+              "(fix: SPE search forces the threshold split only when some observation violates a threshold) and its witness is replayed from the corpus")
 TECHNIQUE = "Coq proof (induction over the component list, composition of C09/C10 theorems) + in-Coq differential correspondence"
 DESIGN_REF = "DESIGN.md section 7, C01"
 
